@@ -143,7 +143,22 @@ fn draw_tags(ctx: &mut Ctx, max: usize) -> Vec<u8> {
     if ctx.ch.chance(1, 4) && !tags.contains(&255) {
         tags.push(255);
     }
+    if ctx.ch.chance(1, 4) {
+        tags.reverse();
+    }
     tags
+}
+
+/// the list handed to Server::new: the registered tags in the drawn (not necessarily ascending)
+/// order, sometimes with one tag listed twice
+pub fn registration_list(ctx: &mut Ctx, tags: &[u8]) -> Vec<u8> {
+    let mut l = tags.to_vec();
+    if ctx.ch.chance(1, 6) && !l.is_empty() {
+        let t = l[ctx.ch.index(l.len())];
+        let pos = ctx.ch.index(l.len() + 1);
+        l.insert(pos, t);
+    }
+    l
 }
 
 pub fn inputs(ctx: &mut Ctx) -> Vec<Vec<u8>> {
@@ -190,7 +205,9 @@ impl Property for C14 {
         let tags = draw_tags(ctx, if ctx.thorough { 10 } else { 6 });
         let epoch_len_us = 1_000_000 * (1 + ctx.ch.draw(3600));
         let n_epochs = tags.len() as u64;
+        let registration = crate::props::c14::registration_list(ctx, &tags);
         let cfg = CCfg {
+            registration,
             n_servers: 1 + ctx.ch.index(3),
             n_clients: 2 + ctx.ch.index(if ctx.thorough { 7 } else { 4 }),
             tags,
@@ -259,7 +276,9 @@ impl Property for C12 {
         if long {
             ctx.stats.probe("long_histories");
         }
+        let registration = crate::props::c14::registration_list(ctx, &tags);
         let cfg = CCfg {
+            registration,
             n_servers: 1 + ctx.ch.index(3),
             n_clients: if long { 24 + ctx.ch.index(if ctx.thorough { 150 } else { 24 }) } else { 2 + ctx.ch.index(if ctx.thorough { 7 } else { 4 }) },
             tags,
